@@ -182,6 +182,9 @@ def pipeline_specs():
                 "weak": gen.pick((None, 2), (0.125, 1), (0.5, 1)),
                 "early_export": gen.pick((False, 2), (True, 1)),
                 "mag": gen.pick((0, 5), (-30, 1), (30, 1)),
+                # one further integer constraint with huge coefficients (big-M form), recorded with lam = 0: it restricts
+                # solve_bruteforce (which filters by is_solution_valid) but adds no penalty, so the forms are not judged
+                "bigM": gen.pick((None, 7), ([0, 1], 1), ([1, 0], 1)),
             }).map(_place_witness)
         return st.builds(lambda p, n: list(p[:n]), st.sampled_from(POOLS),
                          gen.pick((4, 3), (3, 2), (2, 1))).flatmap(for_labels)
@@ -371,6 +374,27 @@ def _run(spec, rec, qv):
             classes.add("log_trick_%s" % bool(c["log_trick"]))
         if c["t"] == "tmpl":
             classes.add("template_" + c["name"])
+    record_only = False
+    # (only over labels that occur in a term of the model: a record-only constraint adds no terms, and the solver
+    # enumerates the model's variables)
+    in_model = [l for l in labels if l in ref.labels_of(dict(H))]
+    if spec.get("bigM") and len(in_model) >= 2:
+        i0, i1 = spec["bigM"]
+        la, lb = in_model[i0], in_model[i1]
+        rest = [l for l in in_model if l not in (la, lb)]
+        Pm = {(la,): 2 ** 40, (lb,): -(2 ** 40)}
+        if rest:
+            Pm[(rest[0],)] = 1
+        Pm[()] = 1
+        wit_assign = {l: ((1 - 2 * b) if spin else b) for l, b in zip(labels, wbits)}
+        v0 = ref.ref_value(Pm, wit_assign)
+        relm = "gt" if v0 > 0 else ("lt" if v0 < 0 else "eq")
+        lib(getattr(H, "add_constraint_%s_zero" % relm), dict(Pm), what="add_constraint_%s_zero(bigM)" % relm, lam=0)
+        preds.append(lambda a, Pm=Pm, relm=relm: ref.REL[relm](ref.ref_value(Pm, a)))
+        descr.append("%s0[bigM, lam=0] %r" % (relm, Pm))
+        anc_flags.append(False)
+        record_only = True
+        classes.add("bigM_record_only")
     feasible = [all(p(a) for p in preds) for a in rows]
     wrow = sum(b << i for i, b in enumerate(wbits))
     assert feasible[wrow], "harness: constraints do not hold at the witness: %r" % (descr,)
@@ -472,6 +496,9 @@ def _run(spec, rec, qv):
         rec.add("forms_checked")
 
     own_order = ref.labels_of(dict(H))
+    if record_only:
+        rec.case(spec, False, sorted(classes))
+        return
     if len(own_order) <= MAX_TABLE_VARS:
         table_check(dict(H), own_order, spin, lambda s: s, "model_itself")
     else:
